@@ -440,6 +440,58 @@ fn spawn_async_ao_list_in_task'''),
         ('del-not-control', 'brush-core/src/escape.rs', "    c.is_ascii_control()", "    (c as u32) < 0x20"),
         ('dq-backquote-not-escaped', 'brush-core/src/escape.rs', "if matches!(c, '$' | '`' | '\"' | '\\\\') {", "if matches!(c, '$' | '\"' | '\\\\') {"),
     ],
+    'U17': [
+        ('status-not-restored', 'brush-core/src/shell/traps.rs', '        self.leave_trap_handler();\n        self.last_exit_status = orig_last_exit_status;', '        self.leave_trap_handler();'),
+        ('handler-frame-leaked-on-error', 'brush-core/src/shell/traps.rs', '''        let result = self
+            .run_string(&handler.command, &handler.source_info, &params)
+            .await;
+
+        self.leave_trap_handler();''', '''        let result = self
+            .run_string(&handler.command, &handler.source_info, &params)
+            .await?;
+
+        self.leave_trap_handler();
+        let result = Ok(result);'''),
+        ('recursion-guard-dropped', 'brush-core/src/shell/traps.rs', '''        if self.call_stack().is_trap_signal_active(signal) {
+            return Ok(ExecutionResult::success());
+        }
+''', ''),
+        ('exit-trap-gated-by-errtrace', 'brush-core/src/shell/traps.rs', '            TrapSignal::Err => self.options().shell_functions_inherit_err_trap,', '            TrapSignal::Err | TrapSignal::Exit => self.options().shell_functions_inherit_err_trap,'),
+        ('dash-c-skips-exit-hook', 'brush-core/src/shell/execution.rs', '''        self.end_command_string_mode()?;
+
+        // Give the shell a chance to run on-exit tasks, but ignore the result.
+        let _ = self.on_exit().await;
+''', '''        self.end_command_string_mode()?;
+'''),
+        ('dash-c-exit-hook-twice', 'brush-core/src/shell/execution.rs', '''        self.end_command_string_mode()?;
+
+        // Give the shell a chance to run on-exit tasks, but ignore the result.
+        let _ = self.on_exit().await;
+''', '''        let _ = self.on_exit().await;
+        self.end_command_string_mode()?;
+
+        // Give the shell a chance to run on-exit tasks, but ignore the result.
+        let _ = self.on_exit().await;
+'''),
+        ('on-exit-runs-err-trap', 'brush-core/src/shell/traps.rs', 'self.invoke_trap_handler(TrapSignal::Exit, &self.default_exec_params())', 'self.invoke_trap_handler(TrapSignal::Err, &self.default_exec_params())'),
+    ],
+    'U19': [
+        ('pop-forgets-function-depth', 'brush-core/src/callstack.rs', '''        if frame.frame_type.is_function() {
+            self.func_call_depth = self.func_call_depth.saturating_sub(1);
+        }
+''', ''),
+        ('push-function-no-depth', 'brush-core/src/callstack.rs', '        self.func_call_depth += 1;\n', ''),
+        ('run-script-counted-as-sourced', 'brush-core/src/callstack.rs', 'if matches!(call_type, ScriptCallType::Source) {\n            self.script_source_depth += 1;', 'if matches!(call_type, ScriptCallType::Source | ScriptCallType::Run) {\n            self.script_source_depth += 1;'),
+        ('handler-signal-not-marked-active', 'brush-core/src/callstack.rs', '        self.active_trap_signals.insert(signal);\n', ''),
+        ('pop-keeps-signal-active', 'brush-core/src/callstack.rs', '''        if let FrameType::TrapHandler(signal) = &frame.frame_type {
+            self.active_trap_signals.remove(signal);
+        }
+''', ''),
+        ('release-block-underflows', 'brush-core/src/callstack.rs', 'self.trap_delivery_suppress_count = self.trap_delivery_suppress_count.saturating_sub(1);', 'self.trap_delivery_suppress_count -= 1;'),
+        ('push-at-back', 'brush-core/src/callstack.rs', '''    pub fn push_eval(&mut self) {
+        self.frames.push_front(Frame {''', '''    pub fn push_eval(&mut self) {
+        self.frames.push_back(Frame {'''),
+    ],
     'U20': [
         ('gap-ge', HL, 'if range.start > self.current_byte_index {', 'if range.start >= self.current_byte_index {'),
         ('push-empty-range', HL, '        if !range.is_empty() {', '        if true {'),
